@@ -54,6 +54,11 @@ def cases(tier, rng):
     for k_, (kind_, proc_) in enumerate((("FL", "EM"), ("F3", "NC"))):
         out.append(dict(id=f"c01-anchor-zeroed{k_}", kind=kind_, heavy="light", grid=gz, points=[dict(x=1e-6, Q2=2.0e6, cls="lowest")], probe_only=True,
                         pdf=pdfs.SpanPDF.random(rng, 3, True), theory=dict(PTO=2, FNS="FFNS", NfFF=3), obs=dict(prDIS=proc_, ProjectileDIS="electron"), kinds=[kind_]))  # fmt: skip
+    # anchor for the open finding F-30: the intrinsic NLO neutral-current kernels lose all digits for Q2/m2 >~ 9e7 (whole O(a_s) entries nan,
+    # handed over as 0), at every x; far beyond any measured region, reached by two fixed requests in every run
+    for k_, (kind_, heavy_, proc_, fns_) in enumerate((("F2", "charm", "EM", "FFNS"), ("FL", "total", "NC", "FONLL-FFNS"))):
+        out.append(dict(id=f"c01-anchor-zeroed-hiq{k_}", kind=kind_, heavy=heavy_, grid=gz, points=[dict(x=0.1, Q2=3.0e8, cls="bulk")], probe_only=True,
+                        pdf=pdfs.SpanPDF.random(rng, 3, True), theory=dict(PTO=1, FNS=fns_, NfFF=3), obs=dict(prDIS=proc_, ProjectileDIS="electron"), kinds=[kind_]))  # fmt: skip
     for i in range(n):
         ptos = (0, 1, 1, 2, 2, 3) if tier == "thorough" else (0, 1, 1, 2, 3)
         cfg = cards.rand_config(rng, ptos=ptos, sv=(i % 5 == 0))
@@ -147,7 +152,7 @@ def run_case(case):
         p_ = case["points"][ip_]
         m2min = min(({4: th["mc"], 5: th["mb"], 6: th["mt"]}[h] ** 2 for h in mq), default=None)
         etamax = None if m2min is None else p_["Q2"] / m2min * (1.0 - p_["x"]) / (4.0 * p_["x"])
-        region = "nomass" if etamax is None else ("etamax>=5e9" if etamax >= 5e9 else "etamax<5e9")
+        region = "nomass" if etamax is None else ("xi>=5e7" if p_["Q2"] / m2min >= 5e7 else ("etamax>=5e9" if etamax >= 5e9 else "etamax<5e9"))
         viol.append(dict(sig=f"nonfinite-zeroed|{case['kind']}|{case['heavy']}|{case['obs']['prDIS']}|o{ok_[0]}|{region}",
                          what=f"{nm} {case['obs']['prDIS']} {th['FNS']} PTO={th['PTODIS']} x={p_['x']:.4g} Q2={p_['Q2']:.5g}: {nbad} of {size} entries of order {ok_} were non-finite after the convolution and "
                               f"were returned as 0 by Runner.replace_nans_with_0 (max eta of the lightest massive quark {etamax if etamax is None else format(etamax, '.3g')})"))  # fmt: skip
